@@ -481,14 +481,15 @@ func c09Settings(bs []c09Block, headSize int64) []c09Setting {
 	for _, d := range dl {
 		out = append(out, c09Setting{Duration: d})
 	}
-	for _, l := range ll {
+	for li, l := range ll {
 		if l == 0 {
 			continue
 		}
 		out = append(out, c09Setting{MaxBytes: l, limit: l})
 		out = append(out, c09Setting{Percent: c09PercentFor(l), FsSize: c09FsSize, limit: l})
-		// percentage prevails over bytes
-		out = append(out, c09Setting{MaxBytes: 1, Percent: c09PercentFor(l), FsSize: c09FsSize, limit: l})
+		if li%3 == 1 { // percentage prevails over bytes (every third limit)
+			out = append(out, c09Setting{MaxBytes: 1, Percent: c09PercentFor(l), FsSize: c09FsSize, limit: l})
+		}
 	}
 	for i := 0; i < len(dl) && i < len(ll); i++ {
 		if dl[i] > 0 && ll[i] > 0 {
@@ -703,7 +704,8 @@ func (x *c09Run) runLayout(layout []int, scenario string, only *c09Setting) {
 		settings = []c09Setting{*only}
 	}
 	// the pure functions, on the loaded blocks in newest-first order (as deletableBlocks passes them)
-	for _, st := range settings {
+	dirty := false
+	for si, st := range settings {
 		if x.r.Expired() {
 			return
 		}
@@ -716,10 +718,13 @@ func (x *c09Run) runLayout(layout []int, scenario string, only *c09Setting) {
 			}
 		}
 		if scenario == "plain" {
-			s.apply(c09Setting{})
-			if err := s.reload(); err != nil {
-				x.viol("reload-error", err.Error(), c, bs)
-				return
+			if dirty {
+				s.apply(c09Setting{})
+				if err := s.reload(); err != nil {
+					x.viol("reload-error", err.Error(), c, bs)
+					return
+				}
+				dirty = false
 			}
 			blocks := append([]*Block{}, s.db.Blocks()...)
 			if len(blocks) != len(bs) {
@@ -762,7 +767,11 @@ func (x *c09Run) runLayout(layout []int, scenario string, only *c09Setting) {
 				continue
 			}
 			x.r.Count("evaluations", 2)
+			if st.Percent > 0 && si%4 != 0 {
+				continue // the byte limit behind a percentage goes through reloadBlocks for every fourth only
+			}
 		}
+		dirty = true
 		s.apply(st)
 		if err := s.reload(); err != nil {
 			x.viol("reload-error", err.Error(), c, bs)
@@ -771,6 +780,9 @@ func (x *c09Run) runLayout(layout []int, scenario string, only *c09Setting) {
 		x.checkFinal(s, bs, []int64{headSize}, c)
 		// a second reload changes nothing
 		before, _ := s.dirsOnDisk()
+		if len(before) == len(bs) {
+			continue // nothing was deleted: the next setting starts from the same state
+		}
 		if err := s.reload(); err != nil {
 			x.viol("reload-error", err.Error(), c, bs)
 			return
@@ -827,7 +839,7 @@ func (x *c09Run) runAtOpen(layout []int, scenario string, pick int, only *c09Set
 	all := c09Settings(bs, hsAfter)
 	var settings []c09Setting
 	// a spread of the settings: every stride-th, the phase rotating with the unit
-	stride := vx.Pick(x.r, 6, 3)
+	stride := vx.Pick(x.r, 9, 3)
 	for i := pick % stride; i < len(all); i += stride {
 		settings = append(settings, all[i])
 	}
@@ -932,6 +944,9 @@ func TestVerifC09(t *testing.T) {
 		}
 		l := append([]int{}, idx...)
 		for _, sc := range c09Scenarios(len(l)) {
+			if r.Quick() && len(l) == 3 && (sc == "flag-oldest" || sc == "child:0,2") {
+				continue // quick: these two scenarios on layouts of <= 2 blocks only
+			}
 			units = append(units, unit{l, sc, false, 0})
 		}
 		return true
@@ -944,6 +959,9 @@ func TestVerifC09(t *testing.T) {
 		}
 		l := append([]int{}, idx...)
 		for _, sc := range c09Scenarios(len(l)) {
+			if r.Quick() && sc == "plain" {
+				continue // quick: only the crash leftovers (child next to parents, deletable mark) at Open
+			}
 			units = append(units, unit{l, sc, true, nOpen})
 			nOpen++
 		}
